@@ -6,37 +6,68 @@ import Lattigo.Proofs.BasisExtLimb
 import Lattigo.Proofs.DecompLimb
 import Lattigo.Proofs.BasisExtNTT
 import Lattigo.Proofs.DecompNTT
+import Lattigo.Proofs.BasisExtIndex
+import Lattigo.Proofs.BasisExtEval
 
 /-!
 # C02 — RNS basis extension, rescaling and gadget decomposition match integer division
 
-Two levels (DESIGN.md §5.2):
+Two levels (DESIGN.md §5.2): **(A) integer level** — executable specification functions on residues
+(`divFloorInt`, `divRoundInt`, `manyFloorInt`, `manyRoundInt`, `hpsY/hpsSum/hpsV/hpsOut`, `modDownRes`, `centerInt`,
+`pow2Digit/pow2Recombine`, `rnsRecombine`; driver ops `int …`, compared with math/big); **(B) limb level** — the
+bit-exact twins of the Go functions (Model/Scaling.lean, BasisExt.lean, Decomp.lean), tied limb for limb to the real
+code by the correspondence.  (B) is PROVED to refine (A); status by clause of the property text:
 
-* **(A) integer level** — theorems for ALL chains of distinct primes, all levels, all values, about the
-  executable specification functions of `Model/Scaling.lean`, `Model/BasisExt.lean`, `Model/Decomp.lean`
-  (`divFloorInt`, `divRoundInt`, `manyFloorInt`, `manyRoundInt`, `hpsY/hpsSum/hpsV/hpsOut`, `modDownRes`,
-  `extendSmallLimb`, `pow2Digit/pow2Recombine`, `rnsRecombine`); the driver executes them (`int …` lines,
-  compared with a math/big reference by the correspondence check).
-* **(B) limb level** — the bit-exact twin of the Go functions (`divFloor…divRoundManyNTT`, `modUpExact`,
-  `modUpQtoP/PtoQ`, `modDownQPtoQ/QPtoQNTT/QPtoP`, `decomposeAndSplit`, `maskVec`, `extendSmallNorm*`), tied
-  limb for limb to the real code by the correspondence check.
+**1. "Dividing by the last modulus (floored / rounded, once or several times, in or out of the NTT domain) yields exactly
+the floored / rounded-half-up quotient" — proved for all inputs, all 8 functions, every ring degree `N = 2^K`, standard
+ring.**  `divFloor_crt`, `divRound_crt`, `round_half_up`, `divFloorMany_int`, `divRoundMany_int` (integer level; for odd
+moduli sequential rounding IS rounding by the product); `divFloor_limbs`, `divRound_limbs`, `divFloorMany_limbs`,
+`divRoundMany_limbs`, `roundSeq_eq` (coefficient domain, from `MRed_spec`, `MForm_spec`, Fermat); `divFloorNTT_limbs`,
+`divRoundNTT_limbs`, `divFloorManyNTT_limbs`, `divRoundManyNTT_limbs`, `divFloorNTT_coeffs` (NTT domain: rows = bit-exact
+forward NTT of the residues of the quotient; from C01's `inttStd_nttStd`, the no-wrap theorem `nttCoreLazy_big_all` for
+`NTTLazy` of ring `q_i` on residues of the LARGER `q_ℓ`, linearity of the exact network).  FINDINGS repaired in /repo:
+C02-1 (`DivRoundByLastModulus` rewrote its input), C02-4 (`Div{Floor,Round}ByLastModulusNTT` off by one for `N < 16` and
+on the conjugate-invariant ring: `divFloorNTT_small_ring_repaired`).
+*Tied only*: the conjugate-invariant ring (`divFloorNTTX xfCI` …, driver op `divci`; `ring_generic_twins_std` shows the
+generic twins are the proved functions on the standard ring) — a proof needs the no-wrap theorem for the CI network
+(twist + `flagCI` schedule) on large inputs, which C01 provides for inputs `< 2q` only.
 
-Which limb-level function each integer-level theorem specifies, and what is PROVED about the connection:
+**2. "Extending a centred value from basis Q to basis P returns a value congruent to it modulo the source modulus, the
+exact centred representative below a quarter of it, never off by more than one multiple" — proved at limb level up to
+ONE named hypothesis on the float index.**  Integer level, all inputs: `hps_sum`, `hps_v_is_floor`, `modUp_exact`,
+`modUp_off_by_one`, `modUp_centered_exact`.  Limb level (`ModUpExact`, `ModUpQtoP/PtoQ`): `multSum_limb`,
+`reconstruct_limb`, `modUpExact_limbs(_3p)`, `modUpExact_exact`, `modUp_limbs` — the whole Montgomery bookkeeping
+(`qoverqiinvqi`, `qoverqimodp`, `vtimesqmodp`, 128-bit accumulation, lazy reduction, uint64 wrap) for ANY index `v ≤ #moduli`;
+`modUp_within_one_multiple` — the property's sentence itself under `FidxApprox … 1` resp. `(1/4)`; `fidx_exact_iff`,
+`fidx_of_approx` — the exact (iff) condition for the index to be exact, and its consequences.  NOT proved: `FidxApprox`
+(Lean `Float` is opaque); the tie compares the index bit for bit, the probes `modup_*` check the sentence on the real code.
 
-| Go function | limb-level twin | integer-level spec | connection |
-|---|---|---|---|
-| `Ring.DivFloorByLastModulus` | `Scaling.divFloor` | `divFloor_crt` | **proved**: `divFloor_limbs` (every limb = ⌊x/q_ℓ⌋ mod q_i, from `MRed_spec`, `MForm_spec`, Fermat) |
-| `Ring.DivRoundByLastModulus` | `Scaling.divRound` | `divRound_crt`, `round_half_up` | **proved**: `divRound_limbs` (before repair C02-1 of /repo the function also rewrote p0; now it does not, probe `div_input_unchanged`) |
-| `Ring.Div{Floor,Round}ByLastModulusMany` | `Scaling.divFloorMany/divRoundMany` | `divFloorMany_int`, `divRoundMany_int` | **proved**: `divFloorMany_limbs`, `divRoundMany_limbs` + `roundSeq_eq` |
-| the four `…NTT` variants | `Scaling.div*NTT` | same | **proved** (§1b): `divFloorNTT_limbs`, `divRoundNTT_limbs` (ring degree `N ≥ 16`), `divFloorManyNTT_limbs`, `divRoundManyNTT_limbs`: rows of the result = bit-exact forward NTT of the residues of the quotient (from C01's `inttStd_nttStd`, a no-wrap theorem for `NTTLazy` of ring `q_i` on residues modulo the LARGER `q_ℓ` (`nttCoreLazy_big`), linearity of the exact network).  **FINDING (repaired, C02-4)**: for `N = 8` and on the conjugate-invariant ring `DivFloorByLastModulusNTT`/`DivRoundByLastModulusNTT` were off by one (lazy `INTTLazy` of the last row); the code and the twin now use `INTT` (`divFloorNTT_small_ring_repaired`); `N ≥ 16` stays a hypothesis of the proof technique only |
-| `ModUpExact` | `BasisExt.modUpExact` (`genModUpConstants`, `reconstruct`, `multSum`) | `hps_sum`, `modUp_exact`, `modUp_off_by_one_*` | **proved** (§2b) up to the NAMED IEEE hypothesis: `modUpExact_limbs` (every limb `≡ Σ y_i·(Q/q_i) − v·Q (mod p_j)` with the code's own `y_i = hpsY` and index `v = fidx`, and `< (k+2)·p_j`, `k = ⌈Σ q_i/2^64⌉`: `< 3p_j` for ≤ 8 moduli below `2^61`: `modUpExact_limbs_3p`), `modUpExact_exact` (`v` exact ⇒ limb `≡ x`; `v` off by one ⇒ `≡ x ∓ Q`).  The Montgomery bookkeeping (`qoverqiinvqi`, `qoverqimodp`, `vtimesqmodp`, 128-bit accumulation, lazy reduction, uint64 wrap) is fully proved; what remains a hypothesis is only the value of the float index: `v ≤ #moduli` (validity of the table lookup) and `v = ⌊Σ y_i/q_i⌋` (exactness; `modUp_centered_exact` gives the rational condition) |
-| `BasisExtender.ModUpQtoP/PtoQ` | `BasisExt.modUp` | `modUp_centered_exact` | **proved** (§2b), same named hypothesis: `modUp_limbs` (limb `≡ centred [x]_Q + (hpsV − v)·Q`, `< (k+2)·p`) |
-| `BasisExtender.ModDownQPtoQ/QPtoP` | `BasisExt.modDownQPtoQ/QPtoP` | `modDown_floor/round/err` | **proved** (§2b), same named hypothesis: `modDownQPtoQ_limbs`, `modDownQPtoP_limbs` (limb `< q_i` and `≡ ⌊(x + ⌊P/2⌋)/P⌋ − δ`, `δ = hpsV − v`, through `modDown_err`) |
-| `BasisExtender.ModDownQPtoQNTT` | `BasisExt.modDownQPtoQNTT` | same | **proved** (§2b, `N ≥ 16`): `modDownQPtoQNTT_eq` — on NTT-domain inputs every output row is the bit-exact forward NTT of the corresponding row of `modDownQPtoQ` on the coefficient-domain rows (no hypothesis on the IEEE index), so `modDownQPtoQ_limbs` describes `INTT` of the output (from `inttStd_nttStd`, `modUp_row_lt`: buffer limbs `< (k+2)q_i` for EVERY index, `nttCoreLazy_big`, `fwdZ_zipWith_lin`, `modDownLane_spec`).  `N = 8`: not covered (`INTTLazy` is lazy there; `reconstructRNS` reduces its input, so no defect is expected; tie only) |
-| `Decomposer.DecomposeAndSplit` | `Decomp.decomposeAndSplit` | `rns_digits_recombine` | **proved** (§3b): `decompose_single_limbs` (copy branch: limb `≡ digitA q_d [x]_{q_d}`, the code's centring), `decompose_multi_limbs` (HPS branch, named IEEE hypothesis: limb `≡ centeredRep Q_d x + δ·Q_d`, `< (k+2)·m`), `decompose_digits_recombine(_single)` (these digit values satisfy the hypothesis of `rns_digits_recombine`); `decompose_noP_counterexample` is about the limb-level twin itself |
-| `rlwe.Evaluator.DecomposeNTT` | `Decomp.decomposeNTT` | (digits of `DecomposeAndSplit` moved to the NTT domain) | **proved** (§3b, `N ≥ 16`): `decomposeNTT_some` (succeeds when `DecomposeAndSplit` does; digit `d` = `dnOut` of its output), `decomposeNTT_rows` (rows outside the digit's own moduli = reduced forward NTT of the residues `limb mod q` of the unreduced limbs `DecomposeAndSplit` wrote, via `nttStd_unreduced`; rows inside = the NTT-domain input rows), ranges from `decompose_multi_lt` / `decompose_single_limbs`.  The composition into ONE statement "`INTT` of every row ≡ digit value" is immediate from these but not spelled out |
-| `ring.MaskVec` | `Decomp.maskVec` | `pow2_digits_recombine`, `pow2_digit_lt` | **proved**: `maskVec_eq` (definitional) |
-| `ExtendBasisSmallNormAndCenter` | `BasisExt.extendSmallNorm` | `extendSmallNorm` | **proved** at full strength on the limb function itself (`extendSmallLimb` IS the limb code, repaired by C03-9); `rlwe.ExtendBasisSmallNormAndCenterNTTMontgomery` keeps the old limb code: `extendSmallNormNTTMontgomery_limb_partial` + `_counterexample` |
+**3. "Dividing a value in basis QP by P (or by Q) returns the rounded quotient up to an error of at most 1" — same
+status.**  `modDown_err`, `modDown_exact` (integer); `modDownQPtoQ_limbs`, `modDownQPtoP_limbs` (limb `≡ round − δ`,
+`δ = hpsV − fidx`), `modDownQPtoQ_err_le_one`, `modDownQPtoQ_exact_of_quarter` (the sentence itself under `FidxApprox`);
+`modDownQPtoQNTT_eq` (`N ≥ 16`: NTT-domain variant = NTT ∘ coefficient variant, any index); `evalModDown_domains`,
+`evalModDown_noP` (`rlwe.Evaluator.ModDown`: all four domain combinations compute the same limbs; `N ≥ 16` with `P`,
+every `N` without).  FINDINGS repaired: C02-3 (doc said floored), C02-5 (copy direction without `P`), C02-6 (doc).
+*Tied only*: `ModDownQPtoQNTT` / `Evaluator.ModDown` for `N = 8` (there `INTTLazy` is lazy; harmless since
+`reconstructRNS` reduces, but the proof uses `INTTLazy = INTT`) and on the conjugate-invariant ring; `ModDownQPtoP`
+has the limb theorem but no `err_le_one` corollary (same proof with `Q`, `P` exchanged).
+
+**4. "The digits of the RNS / power-of-two decomposition recombine to the polynomial modulo Q and are bounded by their
+digit modulus" — proved** (HPS branch: up to the same named hypothesis).  `pow2_digit_lt`, `pow2_digits_recombine`,
+`pow2_digits_too_few`, `maskVec_eq`; `rns_digits_recombine`; `decompose_single_limbs`, `decompose_multi_limbs`,
+`decompose_multi_lt`, `decompose_digits_recombine(_single)`, `centred_digit`, `copy_digit`; `decomposeNTT_some`,
+`decomposeNTT_rows`, `nttStd_unreduced` (every `N`).  `decompose_noP_counterexample`: the twin with `nbPi = 0` (how
+`rlwe` called it without `P` before repair 3f60e57).  The digit bound `|d| ≤ Q_d/2 (+1 multiple)` is read off
+`decompose_*_limbs` (`digitA`, `centeredRep`), not stated as one inequality.
+
+**5. Small-norm extension (mechanism list of the property).**  `extendSmallNorm` (full strength, repaired limb of
+`ringqp`), `extendSmallNorm_large_repaired`; `extendSmallNormNTTMontgomery_limb_partial` / `_contract` /
+`_counterexample`: `rlwe.ExtendBasisSmallNormAndCenterNTTMontgomery` keeps the wrapping limb — correct for `|x| ≤ p`,
+i.e. for every legal (small-norm) input; not a defect, an inconsistency.
+
+Not covered: the IEEE-754 analysis (`FidxApprox`), runtime behaviour (aliasing other than the documented in-place
+forms, concurrency), `N > 2^K` structure of `ring.Ring` objects; sizes: chains of distinct odd primes `< 2^61`
+(`Chain`), targets with `(k+2)·p ≤ 2^64` (`Target`), `Σ q_i ≤ k·2^64`.
 -/
 
 namespace Lattigo.Props.C02
@@ -150,25 +181,24 @@ example : divFloor [97, 193, 257] 2 [[1234567 % 97], [1234567 % 193], [1234567 %
 
 /-! ## 1b. Division by the last modulus, NTT-domain variants -/
 
-/-- **Refinement, `DivFloorByLastModulusNTT`** (`N = 2^K ≥ 16`): if row `i ≤ level` of `p0` is the bit-exact
+/-- **Refinement, `DivFloorByLastModulusNTT`** (EVERY ring degree `N = 2^K`): if row `i ≤ level` of `p0` is the bit-exact
 forward NTT (`NTT.nttStd`, tables `Valid`) of the residues `X mod q_i`, then row `i < level` of the result is, limb for
 limb, the forward NTT of `⌊x / q_level⌋ mod q_i`.  Uses `inttStd_nttStd`, the no-wrap theorem `nttCoreLazy_big`
 for `NTTLazy` of ring `q_i` on residues modulo the larger `q_level`, linearity of the exact network, and the
-coefficient-domain limb theorem.  `4 ≤ K` comes from `nttCoreLazy_big` (not forced by the code any more: `divFloorNTT_small_ring_repaired`). -/
-theorem divFloorNTT_limbs (T : Tabs) (qs : List Nat) (level K : Nat) (hC : Chain qs) (hK : 4 ≤ K)
+coefficient-domain limb theorem.  (`N < 16`: the all-reducing schedule, `nttCoreLazy_big_all`; before repair C02-4 of
+/repo the statement was FALSE for `N < 16`: `divFloorNTT_small_ring_repaired`.) -/
+theorem divFloorNTT_limbs (T : Tabs) (qs : List Nat) (level K : Nat) (hC : Chain qs)
     (hl : level < qs.length)
     (hT : ∀ i, i ≤ level → NTT.Valid (tab T i) K ∧ (tab T i).q = modulus qs i)
     (p0 : Rows) (X : List Nat) (hX : X.length = 2 ^ K)
     (hrows : ∀ i, i ≤ level → row p0 i = NTT.nttStd (tab T i) (X.map (· % modulus qs i))) :
     divFloorNTT T qs level p0 = (List.range level).map fun i =>
       NTT.nttStd (tab T i) (X.map fun x => (x / modulus qs level) % modulus qs i) :=
-  Scaling.divFloorNTT_limbs T qs level K hC hK hl hT p0 X hX hrows
+  Scaling.divFloorNTT_limbs T qs level K hC hl hT p0 X hX hrows
 
-/-- **Refinement, `DivRoundByLastModulusNTT`** (`N = 2^K ≥ 16`): rows of the result = forward NTT of
-`⌊(x + (q_level−1)/2) / q_level⌋ mod q_i`.  (Whether `N ≥ 16` is NEEDED here is open: no failing input was found
-for `N = 8` — `AddScalar`'s conditional subtraction absorbs the lazy value `q_ℓ` — but the proof uses
-`INTTLazy = INTT`, which holds for `N ≥ 16` only.) -/
-theorem divRoundNTT_limbs (T : Tabs) (qs : List Nat) (level K : Nat) (hC : Chain qs) (hK : 4 ≤ K)
+/-- **Refinement, `DivRoundByLastModulusNTT`** (EVERY ring degree `N = 2^K`): rows of the result = forward NTT of
+`⌊(x + (q_level−1)/2) / q_level⌋ mod q_i`. -/
+theorem divRoundNTT_limbs (T : Tabs) (qs : List Nat) (level K : Nat) (hC : Chain qs)
     (hl : level < qs.length)
     (hT : ∀ i, i ≤ level → NTT.Valid (tab T i) K ∧ (tab T i).q = modulus qs i)
     (p0 : Rows) (X : List Nat) (hX : X.length = 2 ^ K)
@@ -176,7 +206,7 @@ theorem divRoundNTT_limbs (T : Tabs) (qs : List Nat) (level K : Nat) (hC : Chain
     divRoundNTT T qs level p0 = (List.range level).map fun i =>
       NTT.nttStd (tab T i)
         (X.map fun x => ((x + half (modulus qs level)) / modulus qs level) % modulus qs i) :=
-  Scaling.divRoundNTT_limbs T qs level K hC hK hl hT p0 X hX hrows
+  Scaling.divRoundNTT_limbs T qs level K hC hl hT p0 X hX hrows
 
 /-- **Refinement, `DivFloorByLastModulusManyNTT`** (any `N = 2^K`, every `nbRescales ≤ level`): no panic; row
 `i ≤ level − nb` of the result = forward NTT of `⌊x / (q_level ⋯ q_{level−nb+1})⌋ mod q_i`. -/
@@ -189,21 +219,21 @@ theorem divFloorManyNTT_limbs (T : Tabs) (qs : List Nat) (level K nb : Nat) (hC 
       row p1 i = NTT.nttStd (tab T i) (X.map fun x => (x / lastProd qs level nb) % modulus qs i) :=
   Scaling.divFloorManyNTT_limbs T qs level K nb hC hl hnb hT p0 X hX hrows
 
-/-- **Refinement, `DivRoundByLastModulusManyNTT`** (every `nbRescales ≤ level`; only the branch `nbRescales = 1`,
-which calls `DivRoundByLastModulusNTT`, needs `N ≥ 16`): rows = forward NTT of the `nb`-fold round-half-up
+/-- **Refinement, `DivRoundByLastModulusManyNTT`** (any `N = 2^K`, every `nbRescales ≤ level`): rows = forward NTT of
+the `nb`-fold round-half-up
 quotient (`roundSeq`, = round-half-up by the product: `roundSeq_eq`). -/
 theorem divRoundManyNTT_limbs (T : Tabs) (qs : List Nat) (level K nb : Nat) (hC : Chain qs)
-    (hK : nb = 1 → 4 ≤ K) (hl : level < qs.length) (hnb : nb ≤ level)
+    (hl : level < qs.length) (hnb : nb ≤ level)
     (hT : ∀ i, i ≤ level → NTT.Valid (tab T i) K ∧ (tab T i).q = modulus qs i)
     (p0 : Rows) (X : List Nat) (hX : X.length = 2 ^ K)
     (hrows : ∀ i, i ≤ level → row p0 i = NTT.nttStd (tab T i) (X.map (· % modulus qs i))) :
     ∃ p1, divRoundManyNTT T qs level nb p0 = some p1 ∧ ∀ i, i ≤ level - nb →
       row p1 i = NTT.nttStd (tab T i) (X.map fun x => roundSeq qs level nb x % modulus qs i) :=
-  Scaling.divRoundManyNTT_limbs T qs level K nb hC hK hl hnb hT p0 X hX hrows
+  Scaling.divRoundManyNTT_limbs T qs level K nb hC hl hnb hT p0 X hX hrows
 
 /-- coefficient-domain reading: `INTT_i` of row `i < level` of `DivFloorByLastModulusNTT` is `⌊x/q_level⌋ mod q_i`
 (same for the other three: `Scaling.divRoundNTT_coeffs`, `divFloorManyNTT_coeffs`, `divRoundManyNTT_coeffs`). -/
-theorem divFloorNTT_coeffs (T : Tabs) (qs : List Nat) (level K : Nat) (hC : Chain qs) (hK : 4 ≤ K)
+theorem divFloorNTT_coeffs (T : Tabs) (qs : List Nat) (level K : Nat) (hC : Chain qs)
     (hl : level < qs.length)
     (hT : ∀ i, i ≤ level → NTT.Valid (tab T i) K ∧ (tab T i).q = modulus qs i)
     (p0 : Rows) (X : List Nat) (hX : X.length = 2 ^ K)
@@ -211,16 +241,16 @@ theorem divFloorNTT_coeffs (T : Tabs) (qs : List Nat) (level K : Nat) (hC : Chai
     (i : Nat) (hi : i < level) :
     NTT.inttStd (tab T i) (row (divFloorNTT T qs level p0) i)
       = X.map fun x => (x / modulus qs level) % modulus qs i :=
-  Scaling.divFloorNTT_coeffs T qs level K hC hK hl hT p0 X hX hrows i hi
+  Scaling.divFloorNTT_coeffs T qs level K hC hl hT p0 X hX hrows i hi
 
 /-- **The small ring (`N = 8`) after repair C02-4 of /repo.**  FINDING (reproduced, repaired): `DivFloorByLastModulusNTT`
 and `DivRoundByLastModulusNTT` took the last row through `INTTLazy`, which is really lazy (`MRedLazy`, range
 `[1, 2q]`, `0 ↦ q_ℓ`) for `N < 16` and, on the conjugate-invariant ring, for EVERY `N`; that value was moved to the
 other moduli as an integer, giving `⌊x/q_ℓ⌋ − 1` (the zero polynomial ↦ `−1` in every coefficient).  The code now
 uses the reducing `INTT`; the twin follows, and on the former witness the result is the zero polynomial.
-`4 ≤ K` (`N ≥ 16`) is therefore no longer forced by the code; it stays a hypothesis of `divFloorNTT_limbs` /
-`divRoundNTT_limbs` because the no-wrap theorem `nttCoreLazy_big` is proved for the unrolled schedule only
-(gap: `N = 8` and the conjugate-invariant ring are covered by the ties `div`/`divci` and the reference probes). -/
+The limb theorems above now hold for every ring degree (the `N = 8` instances below go through
+`divFloorNTT_limbs` / `divRoundNTT_limbs` with `K = 3`); the conjugate-invariant ring is covered by the ties `divci`
+and the reference probes only. -/
 theorem divFloorNTT_small_ring_repaired :
     let T8 := mkTabs 8 [97, 193] [5, 5]
     let qs := [97, 193]
@@ -246,9 +276,14 @@ theorem ring_generic_twins_std :
 
 -- test (non-vacuity): N = 16, qs = [97, 193], level 1, 16 coefficients 1000·j + 7
 example : divFloorNTT exT16 [97, 193] 1 exP0 = [NTT.nttStd (tab exT16 0) (exX.map fun x => (x / 193) % 97)] :=
-  divFloorNTT_limbs exT16 [97, 193] 1 4 chain_97_193 (by decide) (by decide) tabs16_ok exP0 exX rfl exP0_rows
+  divFloorNTT_limbs exT16 [97, 193] 1 4 chain_97_193 (by decide) tabs16_ok exP0 exX rfl exP0_rows
 example : divRoundNTT exT16 [97, 193] 1 exP0 = [NTT.nttStd (tab exT16 0) (exX.map fun x => ((x + 96) / 193) % 97)] :=
-  divRoundNTT_limbs exT16 [97, 193] 1 4 chain_97_193 (by decide) (by decide) tabs16_ok exP0 exX rfl exP0_rows
+  divRoundNTT_limbs exT16 [97, 193] 1 4 chain_97_193 (by decide) tabs16_ok exP0 exX rfl exP0_rows
+-- test (the smallest ring): N = 8 (`K = 3`), a non-zero polynomial
+example : divFloorNTT exT8 [97, 193] 1 exP0_8 = [NTT.nttStd (tab exT8 0) (exX8.map fun x => (x / 193) % 97)] :=
+  divFloorNTT_limbs exT8 [97, 193] 1 3 chain_97_193 (by decide) tabs8_ok exP0_8 exX8 rfl exP0_8_rows
+example : divRoundNTT exT8 [97, 193] 1 exP0_8 = [NTT.nttStd (tab exT8 0) (exX8.map fun x => ((x + 96) / 193) % 97)] :=
+  divRoundNTT_limbs exT8 [97, 193] 1 3 chain_97_193 (by decide) tabs8_ok exP0_8 exX8 rfl exP0_8_rows
 
 /-! ## 2. Basis extension (HPS), ModDown, small-norm extension
 
@@ -561,6 +596,167 @@ example : hpsV [97, 193, 257] (hpsY [97, 193, 257] (residues [97, 193, 257] 1234
 #guard modUpExact [97, 193, 257] [769, 1153] (genModUpConstants [97, 193, 257] [769, 1153]) 1
     [[1234567 % 97], [1234567 % 193], [1234567 % 257]] = [[1234567 % 769 + 769], [1234567 % 1153]]
 
+
+/-! ### 2c. The IEEE correction index: ONE named hypothesis; `Evaluator.ModDown`
+
+`FidxApprox Q qs ys ε` — the index the code computes is `⌊t⌋` for some rational `t ≥ 0` with `|t − Σ y_i/q_i| < ε`
+(the float sum read as a rational).  It replaces the two hypotheses of §2b (`fidx ≤ #moduli`, `fidx = hpsV`), which are
+now DERIVED: `ε ≤ 1` gives the table lookup in range and an error of at most one; `ε ≤ 1/4` and a value below a quarter
+of the source modulus give exactness.  Lean's `Float` is opaque to the kernel: `FidxApprox` itself (true with
+`ε ≈ n·2⁻⁵²` for `n ≤ 32` binary64 additions of quotients `≤ 1`) cannot be proved; it is the ONLY unproved link between
+the limb-level twins of the basis extension and the integer-level quotient, and the tie checks the index bit for bit. -/
+
+/-- **exact condition (iff) under which the floor of an approximation `t` of `Σ y_i/q_i` is the exact index**: the
+error `t − Σ` lies in `[−x/Q, 1 − x/Q)` (`x < Q` the input the `y_i` belong to). -/
+theorem fidx_exact_iff (qs ys : List Nat) (x : Nat) (t : ℚ) (ht0 : 0 ≤ t)
+    (hc : qs.Pairwise Nat.Coprime) (hpos : ∀ q ∈ qs, 0 < q) (hx : x < prodN qs)
+    (hy : List.Forall₂ (fun qi yi => yi < qi ∧ (yi * qStar qs qi) % qi = x % qi) qs ys) :
+    ⌊t⌋₊ = hpsV qs ys ↔
+      -((x : ℚ) / (prodN qs : ℚ)) ≤ t - (List.zipWith (fun (qi yi : Nat) => (yi : ℚ) / (qi : ℚ)) qs ys).sum
+      ∧ t - (List.zipWith (fun (qi yi : Nat) => (yi : ℚ) / (qi : ℚ)) qs ys).sum < 1 - (x : ℚ) / (prodN qs : ℚ) :=
+  BasisExt.fidx_exact_iff qs ys x t ht0 hc hpos hx hy
+
+/-- `ε ≤ 1` ⇒ the index is `≤ #moduli` (lookup in range) and off by at most one; `ε ≤ 1/4` and `Q/4 ≤ x < 3Q/4` ⇒ exact. -/
+theorem fidx_of_approx (Q qs ys : List Nat) (x : Nat) (hne : qs ≠ [])
+    (hc : qs.Pairwise Nat.Coprime) (hpos : ∀ q ∈ qs, 0 < q) (hx : x < prodN qs)
+    (hy : List.Forall₂ (fun qi yi => yi < qi ∧ (yi * qStar qs qi) % qi = x % qi) qs ys) :
+    (FidxApprox Q qs ys 1 → fidx Q ys ≤ qs.length
+        ∧ (fidx Q ys = hpsV qs ys ∨ fidx Q ys = hpsV qs ys + 1 ∨ fidx Q ys + 1 = hpsV qs ys))
+    ∧ (FidxApprox Q qs ys (1 / 4) → prodN qs ≤ 4 * x → 4 * x < 3 * prodN qs → fidx Q ys = hpsV qs ys) :=
+  ⟨fun h => ⟨fidxApprox_le Q qs ys x hne hc hpos hx hy h, fidxApprox_cases Q qs ys x hc hpos hx hy h⟩,
+   fun h hlo hhi => fidxApprox_exact Q qs ys x hc hpos hx hy hlo hhi h⟩
+
+-- test (non-vacuity of `FidxApprox`'s shape): qs = [3,5,7], x = 52: Σ = 157/105, t = 3/2, ⌊t⌋ = 1 = hpsV
+example : hpsV [3, 5, 7] [2, 2, 3] = 1 ∧ ∃ t : ℚ, 0 ≤ t ∧ (1 : ℕ) = ⌊t⌋₊
+    ∧ |t - (List.zipWith (fun (qi yi : Nat) => (yi : ℚ) / (qi : ℚ)) [3, 5, 7] [2, 2, 3]).sum| < 1 / 4 :=
+  ⟨by decide, 3 / 2, by norm_num, by norm_num [Nat.floor_eq_iff], by norm_num [abs_lt]⟩
+
+/-- **`ModDownQPtoQ`: the rounded quotient up to an error of at most 1** — the property's sentence, every limb, with
+only `FidxApprox … 1`: limb `< q_i` and `≡ ⌊(x + ⌊Pb/2⌋)/Pb⌋ + e (mod q_i)`, `|e| ≤ 1`. -/
+theorem modDownQPtoQ_err_le_one (Q P : List Nat) (levelQ levelP : Nat) (hlQ : levelQ < Q.length)
+    (hlP : levelP < P.length) (hCP : Chain (P.take (levelP + 1))) (k : Nat)
+    (hk : (P.take (levelP + 1)).sum ≤ k * W) (hTQ : Target Q (k + 2))
+    (hdisj : ∀ i, i ≤ levelQ → Q.getD i 0 ∉ P.take (levelP + 1)) (p1Q p1P : Rows) (X : List Nat)
+    (hQ : ∀ i, i ≤ levelQ → row p1Q i = X.map (· % Q.getD i 0))
+    (hP : ∀ j, j ≤ levelP → row p1P j = X.map (· % P.getD j 0)) (i : Nat) (hi : i ≤ levelQ) :
+    List.Forall₂ (fun x out =>
+        FidxApprox P (P.take (levelP + 1)) (hpsY (P.take (levelP + 1)) (residues (P.take (levelP + 1))
+            ((x + prodN (P.take (levelP + 1)) / 2) % prodN (P.take (levelP + 1))))) 1 →
+          out < Q.getD i 0 ∧ ∃ e : ℤ, |e| ≤ 1 ∧
+            ((out : ℕ) : ℤ) % (Q.getD i 0 : ℤ)
+              = ((((x + prodN (P.take (levelP + 1)) / 2) / prodN (P.take (levelP + 1)) : ℕ) : ℤ) + e)
+                  % (Q.getD i 0 : ℤ))
+      X (row (modDownQPtoQ Q P levelQ levelP p1Q p1P) i) :=
+  BasisExt.modDownQPtoQ_err_le_one Q P levelQ levelP hlQ hlP hCP k hk hTQ hdisj p1Q p1P X hQ hP i hi
+
+/-- **`ModDownQPtoQ`: EXACTLY the rounded quotient** when the centred remainder `[x]_Pb` is below `Pb/4` in absolute
+value (`Pb ≤ 4x' < 3Pb`, `x' = (x + ⌊Pb/2⌋) mod Pb`) and the float error is below `1/4`. -/
+theorem modDownQPtoQ_exact_of_quarter (Q P : List Nat) (levelQ levelP : Nat) (hlQ : levelQ < Q.length)
+    (hlP : levelP < P.length) (hCP : Chain (P.take (levelP + 1))) (k : Nat)
+    (hk : (P.take (levelP + 1)).sum ≤ k * W) (hTQ : Target Q (k + 2))
+    (hdisj : ∀ i, i ≤ levelQ → Q.getD i 0 ∉ P.take (levelP + 1)) (p1Q p1P : Rows) (X : List Nat)
+    (hQ : ∀ i, i ≤ levelQ → row p1Q i = X.map (· % Q.getD i 0))
+    (hP : ∀ j, j ≤ levelP → row p1P j = X.map (· % P.getD j 0)) (i : Nat) (hi : i ≤ levelQ) :
+    List.Forall₂ (fun x out =>
+        FidxApprox P (P.take (levelP + 1)) (hpsY (P.take (levelP + 1)) (residues (P.take (levelP + 1))
+            ((x + prodN (P.take (levelP + 1)) / 2) % prodN (P.take (levelP + 1))))) (1 / 4) →
+        prodN (P.take (levelP + 1)) ≤ 4 * ((x + prodN (P.take (levelP + 1)) / 2) % prodN (P.take (levelP + 1))) →
+        4 * ((x + prodN (P.take (levelP + 1)) / 2) % prodN (P.take (levelP + 1))) < 3 * prodN (P.take (levelP + 1)) →
+          out = ((x + prodN (P.take (levelP + 1)) / 2) / prodN (P.take (levelP + 1))) % Q.getD i 0)
+      X (row (modDownQPtoQ Q P levelQ levelP p1Q p1P) i) :=
+  BasisExt.modDownQPtoQ_exact_of_quarter Q P levelQ levelP hlQ hlP hCP k hk hTQ hdisj p1Q p1P X hQ hP i hi
+
+/-- **`ModUpQtoP` / `ModUpPtoQ`: never off by more than one multiple of the source modulus, exact below a quarter** —
+the property's sentence for the limb-level twin: with `FidxApprox … 1` every limb is `≡ centeredRep Qb x + δ·Qb`,
+`δ ∈ {−1,0,1}`; with `FidxApprox … (1/4)` and `Qb ≤ 4x' < 3Qb` (`|centred x| < Qb/4`) it is `≡ centeredRep Qb x`. -/
+theorem modUp_within_one_multiple (Q P : List Nat) (levelQ levelP : Nat) (hlQ : levelQ < Q.length)
+    (hlP : levelP < P.length) (hC : Chain (Q.take (levelQ + 1))) (k : Nat)
+    (hk : (Q.take (levelQ + 1)).sum ≤ k * W) (hT : Target P (k + 1)) (polQ : Rows) (X : List Nat)
+    (hrows : ∀ i, i ≤ levelQ → row polQ i = X.map (· % Q.getD i 0)) (j : Nat) (hj : j ≤ levelP) :
+    List.Forall₂ (fun x out =>
+        FidxApprox Q (Q.take (levelQ + 1)) (hpsY (Q.take (levelQ + 1)) (residues (Q.take (levelQ + 1))
+            ((x + prodN (Q.take (levelQ + 1)) / 2) % prodN (Q.take (levelQ + 1))))) 1 →
+          out < (k + 2) * P.getD j 0 ∧ ∃ δ : ℤ, (δ = -1 ∨ δ = 0 ∨ δ = 1) ∧
+            ((out : ℕ) : ℤ) % (P.getD j 0 : ℤ)
+              = (centeredRep (prodN (Q.take (levelQ + 1))) x + δ * (prodN (Q.take (levelQ + 1)) : ℤ))
+                  % (P.getD j 0 : ℤ))
+      X (row (modUp Q P levelQ levelP polQ) j)
+    ∧ List.Forall₂ (fun x out =>
+        FidxApprox Q (Q.take (levelQ + 1)) (hpsY (Q.take (levelQ + 1)) (residues (Q.take (levelQ + 1))
+            ((x + prodN (Q.take (levelQ + 1)) / 2) % prodN (Q.take (levelQ + 1))))) (1 / 4) →
+        prodN (Q.take (levelQ + 1)) ≤ 4 * ((x + prodN (Q.take (levelQ + 1)) / 2) % prodN (Q.take (levelQ + 1))) →
+        4 * ((x + prodN (Q.take (levelQ + 1)) / 2) % prodN (Q.take (levelQ + 1))) < 3 * prodN (Q.take (levelQ + 1)) →
+          ((out : ℕ) : ℤ) % (P.getD j 0 : ℤ) = centeredRep (prodN (Q.take (levelQ + 1))) x % (P.getD j 0 : ℤ)
+          ∧ out < (k + 2) * P.getD j 0)
+      X (row (modUp Q P levelQ levelP polQ) j) :=
+  ⟨modUp_err_le_one Q P levelQ levelP hlQ hlP hC k hk hT polQ X hrows j hj,
+   modUp_exact_of_quarter Q P levelQ levelP hlQ hlP hC k hk hT polQ X hrows j hj⟩
+
+/-- **`rlwe.Evaluator.ModDown` with a special modulus: the four `(ctQP.IsNTT, ct.IsNTT)` combinations compute ONE
+quotient** (standard ring, `N = 2^K ≥ 16`).  `X` the integer coefficients; the inputs are the rows of `X` in the domain
+`qpNTT` (`domRows`); the output rows of the twin `evalModDown`, read in the coefficient domain when `ctNTT`
+(`readCoeff`), are — limb for limb, for every value of the IEEE index — the rows of `modDownQPtoQ` on the
+coefficient-domain rows of `X`, which `modDownQPtoQ_err_le_one` identifies as the rounded quotient ±1. -/
+theorem evalModDown_domains (TQ TP : Tabs) (Q P : List Nat) (levelQ levelP K : Nat) (hK : 4 ≤ K)
+    (hlQ : levelQ < Q.length) (hlP : levelP < P.length)
+    (hTQ : ∀ i, i ≤ levelQ → NTT.Valid (tab TQ i) K ∧ (tab TQ i).q = Q.getD i 0)
+    (hTP : ∀ j, j ≤ levelP → NTT.Valid (tab TP j) K ∧ (tab TP j).q = P.getD j 0)
+    (hCP : Chain (P.take (levelP + 1))) (k : Nat) (hk : (P.take (levelP + 1)).sum ≤ k * W)
+    (hTgt : Target Q (k + 4)) (X : List Nat) (hX : X.length = 2 ^ K) (qpNTT ctNTT : Bool)
+    (i : Nat) (hi : i ≤ levelQ) :
+    readCoeff ctNTT (tab TQ i)
+        (row (evalModDown xfStd TQ TP Q P levelQ (some levelP) qpNTT ctNTT
+          (domRows qpNTT TQ Q levelQ X) (domRows qpNTT TP P levelP X)).1 i)
+      = row (modDownQPtoQ Q P levelQ levelP (coeffRows Q levelQ X) (coeffRows P levelP X)) i :=
+  BasisExt.evalModDown_domains TQ TP Q P levelQ levelP K hK hlQ hlP hTQ hTP hCP k hk hTgt X hX qpNTT ctNTT i hi
+
+/-- **`Evaluator.ModDown` without special modulus** (`levelP = -1`): for all four domain combinations the output, read in
+the coefficient domain, is `X mod q_i` (every ring degree; the copy direction was wrong before repair C02-5). -/
+theorem evalModDown_noP (TQ TP : Tabs) (Q P : List Nat) (levelQ K : Nat)
+    (hTQ : ∀ i, i ≤ levelQ → NTT.Valid (tab TQ i) K ∧ (tab TQ i).q = Q.getD i 0)
+    (X : List Nat) (hX : X.length = 2 ^ K) (qpNTT ctNTT : Bool) (pP : Rows) (i : Nat) (hi : i ≤ levelQ) :
+    readCoeff ctNTT (tab TQ i)
+        (row (evalModDown xfStd TQ TP Q P levelQ none qpNTT ctNTT (domRows qpNTT TQ Q levelQ X) pP).1 i)
+      = X.map (· % Q.getD i 0) :=
+  BasisExt.evalModDown_noP TQ TP Q P levelQ K hTQ X hX qpNTT ctNTT pP i hi
+
+-- test (non-vacuity of `evalModDown_domains`): Q = [97], P = [193], N = 16, X = exX, NTT input → coefficient output
+example :
+    row (evalModDown xfStd (mkTabs 16 [97] [5]) (mkTabs 16 [193] [5]) [97] [193] 0 (some 0) true false
+          (domRows true (mkTabs 16 [97] [5]) [97] 0 exX) (domRows true (mkTabs 16 [193] [5]) [193] 0 exX)).1 0
+      = row (modDownQPtoQ [97] [193] 0 0 (coeffRows [97] 0 exX) (coeffRows [193] 0 exX)) 0 :=
+  evalModDown_domains (mkTabs 16 [97] [5]) (mkTabs 16 [193] [5]) [97] [193] 0 0 4 (by decide) (by decide) (by decide)
+    (fun i hi => by have : i = 0 := by omega
+                    subst this; exact ⟨valid16_97, rfl⟩)
+    (fun i hi => by have : i = 0 := by omega
+                    subst this; exact ⟨valid16_193, rfl⟩)
+    ⟨by intro q hq; simp at hq; subst hq; norm_num, by intro q hq; simp at hq; subst hq; rfl,
+     by intro q hq; simp at hq; subst hq; norm_num, by decide⟩
+    1 (by decide)
+    ⟨by intro q hq; simp at hq; subst hq; norm_num, by intro q hq; simp at hq; subst hq; rfl,
+     by intro q hq; simp at hq; subst hq; decide⟩
+    exX rfl true false 0 (by decide)
+-- test (`evalModDown_noP`, N = 8): NTT input → NTT output is a copy; read back it is X mod 97
+example : readCoeff true (tab exT8 0)
+      (row (evalModDown xfStd exT8 [] [97, 193] [] 0 none true true (domRows true exT8 [97, 193] 0 exX8) []).1 0)
+    = exX8.map (· % 97) :=
+  evalModDown_noP exT8 [] [97, 193] [] 0 3 (fun i hi => by have : i = 0 := by omega
+                                                           subst this; exact ⟨valid8_97, rfl⟩)
+    exX8 rfl true true [] 0 (by decide)
+
+/-- `rlwe.ExtendBasisSmallNormAndCenterNTTMontgomery`, contract form: the unrepaired limb code is right whenever the
+centred value fits the target prime, `|x| ≤ p`.  This is the function's "small norm" contract: all in-tree callers
+(`core/rlwe/keygenerator.go:216,266,271`, `circuits/ckks/bootstrapping/keys.go:100,103`) pass SECRET KEYS (ternary, or
+a Gaussian bounded by `6σ`), far below any NTT-friendly prime (`p ≥ 2N + 1`).  So the wrap of
+`extendSmallNormNTTMontgomery_limb_counterexample` is NOT reachable with legal inputs — not a defect, but an
+inconsistency with `ringqp.Ring.ExtendBasisSmallNormAndCenter` since repair C03-9 (which reduces `|x|` modulo `p`). -/
+theorem extendSmallNormNTTMontgomery_limb_contract (q0 p c : Nat) (hcq : c < q0) (hq : q0 < W) (hp : p < W)
+    (hfit : (centerInt q0 c).natAbs ≤ p) :
+    ((extendSmallLimbWrap q0 p c : Nat) : Int) % p = centerInt q0 c % p :=
+  extendSmallWrap_contract q0 p c hcq hq hp hfit
+
+example : (centerInt 97 96).natAbs ≤ 17 := by decide  -- test: the ternary coefficient −1
+
 end BasisExt
 
 /-! ## 3. Gadget decomposition -/
@@ -711,11 +907,11 @@ theorem decompose_digits_recombine_single (Qs : List Nat) (inv : Nat → Nat) (x
       = (x : ℤ) % (prodN Qs : ℤ) :=
   digits_recombine_single Qs inv x hc hpos hinv
 
-/-- **reduced NTT of an unreduced row** (`N = 2^K ≥ 16`, entries `< M`, `M + 4q ≤ 2^64`) = NTT of the row mod `q` -/
-theorem nttStd_unreduced {T : NTT.Tables} {K : Nat} (hT : NTT.Valid T K) (hK : 4 ≤ K) (M : Nat)
+/-- **reduced NTT of an unreduced row** (every `N = 2^K`, entries `< M`, `M + 4q ≤ 2^64`) = NTT of the row mod `q` -/
+theorem nttStd_unreduced {T : NTT.Tables} {K : Nat} (hT : NTT.Valid T K) (M : Nat)
     (hM : M + 4 * T.q ≤ W) (a : List Nat) (ha : ∀ x ∈ a, x < M) :
     NTT.nttStd T a = NTT.nttStd T (a.map (· % T.q)) :=
-  Decomp.nttStd_unreduced hT hK M hM a ha
+  Decomp.nttStd_unreduced hT M hM a ha
 
 /-- ranges of the HPS branch for EVERY value of the IEEE index: limbs `< (k+2)·m` -/
 theorem decompose_multi_lt (Q P : List Nat) (hasP : Bool) (levelQ levelP nbPi d : Nat) (hnb : 0 < nbPi)
@@ -744,9 +940,9 @@ theorem decomposeNTT_some (TQ TP : Tabs) (Q P : List Nat) (levelQ levelP nbPi si
           dnOut TQ TP levelQ levelP nbPi d (dnNtt TQ levelQ isNTT c2) (A d) (B d)) :=
   Decomp.decomposeNTT_some TQ TP Q P levelQ levelP nbPi size isNTT c2 A B h
 
-/-- **rows of a digit of `DecomposeNTT`** (`N ≥ 16`): inside the digit's own moduli the NTT-domain input row; elsewhere
+/-- **rows of a digit of `DecomposeNTT`** (every `N = 2^K`): inside the digit's own moduli the NTT-domain input row; elsewhere
 the reduced forward NTT of `limb mod q` of the (unreduced, `< M q`) limbs `DecomposeAndSplit` wrote. -/
-theorem decomposeNTT_rows (TQ TP : Tabs) (Q P : List Nat) (levelQ levelP nbPi d K : Nat) (hK : 4 ≤ K)
+theorem decomposeNTT_rows (TQ TP : Tabs) (Q P : List Nat) (levelQ levelP nbPi d K : Nat)
     (ntt a b : Rows)
     (hTQ : ∀ i, i ≤ levelQ → NTT.Valid (tab TQ i) K ∧ (tab TQ i).q = Q.getD i 0)
     (hTP : ∀ j, j ≤ levelP → NTT.Valid (tab TP j) K ∧ (tab TP j).q = P.getD j 0)
@@ -759,12 +955,12 @@ theorem decomposeNTT_rows (TQ TP : Tabs) (Q P : List Nat) (levelQ levelP nbPi d 
         else NTT.nttStd (tab TQ x) ((row a x).map (· % Q.getD x 0)))
     ∧ (∀ j, j ≤ levelP → row (dnOut TQ TP levelQ levelP nbPi d ntt a b).2 j =
         NTT.nttStd (tab TP j) ((row b j).map (· % P.getD j 0))) :=
-  dnOut_rows TQ TP Q P levelQ levelP nbPi d K hK ntt a b hTQ hTP M ha hb
+  dnOut_rows TQ TP Q P levelQ levelP nbPi d K ntt a b hTQ hTP M ha hb
 
 -- test (non-vacuity of `nttStd_unreduced`): q = 97, N = 16, a row with entries up to 3q − 1
 example : NTT.nttStd (NTT.mkTables 16 97 32 5) ((List.range 16).map (· * 19 + 3))
     = NTT.nttStd (NTT.mkTables 16 97 32 5) (((List.range 16).map (· * 19 + 3)).map (· % 97)) :=
-  nttStd_unreduced valid16_97 (by decide) 291 (by decide) ((List.range 16).map (· * 19 + 3)) (by decide)
+  nttStd_unreduced valid16_97 291 (by decide) ((List.range 16).map (· * 19 + 3)) (by decide)
 
 -- non-vacuity: Q = [97, 193, 257, 769], P = [1153, 12289], nbPi = 2: digit 0 = {97, 193} (HPS branch)
 example : (0 : Nat) < 2 ∧ 0 * 2 ≤ 3 ∧ 2 ≤ min (0 * 2 + 2) (3 + 1) - 0 * 2
@@ -840,3 +1036,11 @@ end Lattigo.Props.C02
 #print axioms Lattigo.Props.C02.copy_digit
 #print axioms Lattigo.Props.C02.decompose_digits_recombine
 #print axioms Lattigo.Props.C02.decompose_digits_recombine_single
+#print axioms Lattigo.Props.C02.fidx_exact_iff
+#print axioms Lattigo.Props.C02.fidx_of_approx
+#print axioms Lattigo.Props.C02.modDownQPtoQ_err_le_one
+#print axioms Lattigo.Props.C02.modDownQPtoQ_exact_of_quarter
+#print axioms Lattigo.Props.C02.modUp_within_one_multiple
+#print axioms Lattigo.Props.C02.evalModDown_domains
+#print axioms Lattigo.Props.C02.evalModDown_noP
+#print axioms Lattigo.Props.C02.extendSmallNormNTTMontgomery_limb_contract
